@@ -37,6 +37,7 @@ func run(e *harness.Env) {
 		"(span) every single merged rectangle in 2x2, 2x3, 3x2, 3x3 (thorough: x anchor cell kind, and every pair of disjoint rectangles); " +
 		"(heading) document shapes {single level 1..9, ascending ladder, descending ladder, two consecutive headings with the same title, two of the same level} x offset -2..+7 x max 1..6 and 0 (unset) x front matter x TOC; " +
 		"(hsrc, DOCX and ODT) level 1..9 given by {built-in style id + name + outline level, localized id with canonical name, custom style with outline level only, marker-free style that inherits, direct outline level / bare text:outline-level} x basedOn / parent chains of length 1..3 whose ancestors carry a different level (quick: 2 other levels, thorough: all 8) or are the bare umbrella style named Heading; ODT also without text:outline-level where the nearest style level is 1; " +
+		"(rseq) ONE opened reader of docx / odt / xlsx / pptx / htmldoc / epubdoc per sequence, two documents per format: every ordered pair (thorough: triple) of calls from {Markdown(), Document(), MarkdownWithRAGOptions x {default, offset +1, offset +2, max 2, max 1, TOC + front matter}}: the last result must equal the same call on a fresh reader; the fresh Markdown results are judged like every other rendering; " +
 		"(list) every depth sequence of 1..4 (thorough 1..6) items to depth 3 x every ordered/unordered pattern per depth (8 patterns where the format can mix kinds, else 2) x options; " +
 		"(mix) every sequence of 2..3 (thorough 2..4) blocks over {paragraph, heading, bullet list, numbered list, 2x2 table, 1x1 table with '|'} x 4 option sets. " +
 		"One evaluation = one (document, options, clause) with clause in {table, heading #k, list, tokens}; distinct = distinct descriptors; non-trivial = anything but a plain-cell table / unshifted heading <= 6 / flat list under default options"
@@ -65,6 +66,7 @@ func run(e *harness.Env) {
 	c.spans()
 	c.headings()
 	c.headingSources()
+	c.renderSequences()
 	c.lists()
 	c.mixes()
 
@@ -140,6 +142,11 @@ func expectDoc(p *producer, d *Doc) *Doc {
 
 // evaluate renders d through p with o and reports one evaluation per clause.
 func (c *checker) evaluate(p *producer, base string, d *Doc, o mdOpts, nontrivial bool, class string) {
+	c.evaluateWith(p, base, d, o, nontrivial, class, func() (string, map[string][]byte, error) { return p.render(c.w, d, o) })
+}
+
+// evaluateWith is evaluate with the Markdown obtained by render (another API path to the same producer).
+func (c *checker) evaluateWith(p *producer, base string, d *Doc, o mdOpts, nontrivial bool, class string, render func() (string, map[string][]byte, error)) {
 	e := c.e
 	x := expectDoc(p, d)
 	var cl []clause
@@ -202,7 +209,7 @@ func (c *checker) evaluate(p *producer, base string, d *Doc, o mdOpts, nontrivia
 	var md string
 	var files map[string][]byte
 	var err error
-	sig, det := harness.Guard(func() { md, files, err = p.render(c.w, d, o) })
+	sig, det := harness.Guard(func() { md, files, err = render() })
 	var whole *failure
 	var v *verdicts
 	switch {
